@@ -62,6 +62,14 @@ func calleeName(cc *ssa.CallCommon, callee *ssa.Function) string {
 	if b, ok := cc.Value.(*ssa.Builtin); ok {
 		return "builtin." + b.Name()
 	}
+	// call through a function-typed field: name it after the field
+	if u, ok := cc.Value.(*ssa.UnOp); ok {
+		if fa, ok := u.X.(*ssa.FieldAddr); ok {
+			if _, st := structOf(fa.X.Type()); st != nil {
+				return "dynamic." + st.Field(fa.Field).Name()
+			}
+		}
+	}
 	return "dynamic." + cc.Value.Name()
 }
 
